@@ -203,7 +203,10 @@ pub fn run_pipeline(
 
     let mut fds_capture_stdout = None;
     let mut fds_capture_stderr = None;
-    if capture {
+    // a single builtin runs inside the shell and fills the result directly:
+    // capture pipes would only be inherited by whatever it starts
+    // (e.g. the commands of a file read by `source`).
+    if capture && !cl.is_single_and_builtin() {
         match pipe() {
             Ok(fds) => fds_capture_stdout = Some(fds),
             Err(e) => {
